@@ -331,6 +331,10 @@ def main():
     models = [m for m in P.get("models", []) if tier in m.get("tiers", ["quick", "thorough"])]
     # development aid (never set by registered commands): restrict a run to the named drivers, no models
     only = [x for x in os.environ.get("VERIF_ONLY_DRIVERS", "").split(",") if x]
+    onlym = [x for x in os.environ.get("VERIF_ONLY_MODELS", "").split(",") if x]
+    if onlym:
+        models = [m for m in models if m["name"] in onlym]
+        P = dict(P, drivers=[], min_nontrivial=0)
     if only:
         models = []
         P = dict(P, drivers=[d for d in P.get("drivers", []) if d["name"] in only], min_nontrivial=0)
